@@ -58,4 +58,34 @@
 #define MB_NORM_IDX(idx, len)  ((idx) < 0 ? (len) + (idx) : (idx))
 #define MB_IDX_OK(idx, len)    (MB_NORM_IDX(idx, len) >= 0 && MB_NORM_IDX(idx, len) < (len))
 
+/* ---- clause selection ------------------------------------------------------
+ * cbmc reports every ensures clause of a function under the same description, so a
+ * known-findings pattern cannot name one clause.  Where one behaviour of a function
+ * has a clause that fails for a recorded defect, the clause is written ENS_KF(...)
+ * (ENS_KF2 for a second, independent defect) and the behaviour is checked by two units:
+ *   -DU_NOT_KF   every clause except the ENS_KF ones   (must be proved)
+ *   -DU_ONLY_KF  only the ENS_KF clauses               (fails while the finding is open)
+ * Units that define neither check all clauses together. */
+#if defined(U_ONLY_KF)
+# define ENS(c)
+# define ENS_KF(c)   __CPROVER_ensures(c)
+# define ENS_KF2(c)
+#elif defined(U_ONLY_KF2)
+# define ENS(c)
+# define ENS_KF(c)
+# define ENS_KF2(c)  __CPROVER_ensures(c)
+#elif defined(U_NOT_KF)
+# define ENS(c)      __CPROVER_ensures(c)
+# define ENS_KF(c)
+# define ENS_KF2(c)
+#else
+# define ENS(c)      __CPROVER_ensures(c)
+# define ENS_KF(c)   __CPROVER_ensures(c)
+# define ENS_KF2(c)  __CPROVER_ensures(c)
+#endif
+
+/* the object state with a zero-size block tolerated (used only beside an ENS_KF(MBUFF_POST) clause) */
+#define MBUFF_POST_ZEROBLOCK(o) (0 <= (o)->len && (o)->len <= (o)->size && (o)->size <= VCAP && \
+                                 ((o)->size == 0 || MBUFF_BLOCK_OK((o)->buff, (o)->size)))
+
 #endif
